@@ -19,6 +19,10 @@ notations x RADIX x INTSYNTAX/RELAXED).
                 (negative / oversized indices, ill-typed arguments, wrong counts), the documented alias spellings,
                 VAL on spelled formulas; Expr_Sim: random type-directed growth of trees up to depth 6.
     IntLit_Gen: every notation of the manual x RADIX 2..36 x native syntax sets of four families x RELAXED x INTSYNTAX.
+    IntMode_MC: the notation STATE as a function of the HISTORY of CPU / RELAXED / INTSYNTAX statements (spec/IntMode.tla:
+                accepted set = f(native set of the target, relaxed flag, plus / minus sets); the code rebuilds a list in each
+                statement, so order matters): every history of <= 3 statements after `cpu z80|68000` (thorough: + AM29000,
+                MN1610; quick: third statement from 5 of the 13) followed by a constant in every notation (checks/c08_hist.py).
     Each case is rendered for z80 (Intel notation, `dq`/`db`, little endian) and 68000 (Motorola notation,
     `dc.q`/`dc.d`/`dc.b`, big endian), one `org` slot per case; the 64-bit / IEEE-double / character result is read
     back from the code file.  Cases TLC evaluates to ERR must produce an error message on their line (grouped files,
@@ -59,6 +63,11 @@ Mutations of the real code tried (fresh copy of /repo, VERIF_REPO, ./check C08 -
       2^32+3, 2^32+97, 2^63-1, -2^31, -2^32, -2^63 (Expr_Gen BoundaryFunCases; SUBSTR is evaluated on Limb64 values):
       caught, 80 violations (substr("abcd",100000001h,3) = "bcd").  FuncTOUPPER comparing (int) casts: caught
       (TOUPPER(100000061h) = 65 instead of an error).
+    * (after a second independently seeded miss) intformat.c ModifyIntConstModeByMask rebuilding the list from the native mask
+      only (RELAXED ON; INTSYNTAX +x -> all non-native notations lost, C octal silently read as decimal) -> invisible while
+      every generated file had ONE setting statement; with the statement histories of IntMode_MC: caught, 918 violations
+      (`cpu 68000; relaxed on; intsyntax +0bbin`: 010 = 10 instead of 8, 10h "invalid symbol name").  The same mutation
+      applied to the model (CodeList(new, other, FALSE)) violates IntMode_MC's invariant ListIsFunctionOfSettings.
 """
 import os
 import re
@@ -461,16 +470,18 @@ def main(tier):
     quick = tier == "quick"
     mcs = [("Limb64_MC", "Limb64_MC.cfg" if quick else "Limb64_MC_full.cfg"),
            ("Expr_MC", "Expr_MC.cfg" if quick else "Expr_MC_deep.cfg")]
-    from checks import c08_lit
+    from checks import c08_hist, c08_lit
 
     def job(j):
         if j == "gen":
             return generate(rep, tier)
         if j == "lit":
             return c08_lit.generate(rep, tier)
+        if j == "hist":
+            return c08_hist.generate(rep, tier)
         return tlc.run(j[0], j[1], workers=3, timeout=1700, mem="6g", collect=False)
     with Phase("TLC: model checking and case generation (concurrent)"):
-        out = pmap(job, mcs + ["gen", "lit"], workers=4)
+        out = pmap(job, mcs + ["gen", "lit", "hist"], workers=4)
     for (m, cfg), r in zip(mcs, out[:len(mcs)]):
         tlc.must(r, m)
         if r.violation:
@@ -478,14 +489,18 @@ def main(tier):
         rep.model("%s(%s)" % (m, cfg), r)
     atoms, valsrc, cases = out[len(mcs)]
     litcases = out[len(mcs) + 1]
+    histories = out[len(mcs) + 2]
     replay_cases(rep, bld, atoms, valsrc, cases, tier)
 
     c08_lit.replay_cases(rep, bld, litcases, tier)
+    c08_hist.replay_cases(rep, bld, histories, tier)
     return rep.finish(
         rule="formulas = every operator of the manual's table x every ordered pair of the boundary operand alphabet, "
              "every built-in function over its small domain, alias spellings, plus TLC-simulated trees up to depth 6; "
              "literals = notation x radix x syntax set; each rendered on z80 and 68000; distinct = distinct rendered "
-             "formula per dialect; non-trivial = contains at least one operator or function",
+             "formula per dialect; non-trivial = contains at least one operator or function; notation state = every "
+             "history of <= 3 CPU/RELAXED/INTSYNTAX statements (quick: third from a subset) x a constant in every "
+             "notation",
         exhaustive=False)
 
 
